@@ -21,7 +21,7 @@ package main
 //@   ghost perr error = nil
 //@   ghost reported bool = false
 //@   on call iobroker.New(i, o) (b, e): iobErr = e != nil; assert(pending == 0, "no_earlier_failure_ignored"); if e != nil { pending = 1; perr = e }
-//@   on call os.OpenFile(n, fl, pm) (f, e): logErr = e != nil; assert(pending == 0 && n == *logFile, "no_earlier_failure_ignored"); if e != nil { pending = 2; perr = e }
+//@   on call os.OpenFile(n, fl, pm) (f, e): logErr = e != nil; logf = f; nOpenLog++; assert(pending == 0 && n == *logFile && *logFile != "", "no_earlier_failure_ignored"); if e != nil { pending = 2; perr = e }
 //@   on call insertGen() (b, e): assert(pending == 0, "no_earlier_failure_ignored"); if e != nil { pending = 3; perr = e }
 //@   on call opshell.New(i, o, p, nt, g, n) (sh, cl, e): shellErr = e != nil; raw = e == nil; assert(pending == 0, "no_earlier_failure_ignored"); if e != nil { pending = 4; perr = e }
 //@   on call ezicanhazip.IPv4() (a, e): ipErr = e != nil; assert(pending == 0, "no_earlier_failure_ignored"); if e != nil { pending = 5; perr = e }
@@ -30,6 +30,15 @@ package main
 //@   on enter log.Printf(f, v): said = true; if pending == 1 { assert(len(v) >= 1 && boxes(v[len(v)-1], perr), "message_names_the_cause"); reported = true }
 //@   on enter opshell.Shell.Logf(sh, c, nts, f, v): said = true; if pending == 5 || pending == 6 { assert(len(v) >= 1 && boxes(v[len(v)-1], perr), "message_names_the_cause"); reported = true }
 //@   on enter log.Fatalf(f, v): assert(!raw, "no_fatal_exit_while_terminal_is_raw"); assert(pending == 2 || pending == 3 || pending == 4, "fatal_exit_only_for_a_startup_failure"); assert(len(v) >= 1 && boxes(v[len(v)-1], perr), "fatal_message_names_the_cause"); pending = 0; nFatal++
+//@   ghost nGo int = 0
+//@   ghost nWait int = 0
+//@   ghost werr error = nil
+//@   ghost logf *os.File = nil
+//@   ghost nOpenLog int = 0
+//@   on enter ctxerrgroup.Group.GoContext(g, c, f): assert(g == eg && c == ectx && nWait == 0, "activities_run_in_one_group_on_its_context"); nGo++
+//@   on call ctxerrgroup.Group.Wait(g) (e): assert(g == eg && nGo == 3, "terminal_https_service_and_broker_all_started_before_waiting"); werr = e; nWait++
+//@   on call slog.NewJSONHandler(w, o) (h): assert(imp(*logFile != "", nOpenLog == 1 && !logErr && boxes(w, lw) && boxes(lw, logf)), "log_records_go_to_the_file_named_by_the_log_flag")
+//@   ensures exit_status_reflects_how_the_run_ended: imp(nWait == 1, (code == 0) == (werr == nil || errors.Is(werr, io.EOF) || errors.Is(werr, hsrv.ErrOneShellClosed)))
 //@   ensures terminal_restored: !raw
 //@   ensures failures_nonzero: imp(iobErr || hsrvErr || ipErr, code != 0 && said)
 //@   ensures startup_failure_reported_with_its_cause_and_nonzero_status: imp(pending != 0, reported && code != 0)
@@ -41,3 +50,4 @@ package main
 //@   ghost n int = 0
 //@   on call rmain() (c): rc = c; n++
 //@   on enter os.Exit(c): assert(n == 1 && c == rc, "exit_status_is_rmains_result")
+//@   ensures the_process_ends_through_os_Exit_with_rmains_status: false
